@@ -12,6 +12,7 @@ theorem rows_run_g {src : Bytes} {offs : List Nat} {maxrow ncols : Nat} (hnc : 0
       CellStart src offs maxrow ncols s (A0 ++ (render rows ++ X).takeWhile isWs) 0 false k np E →
       StrictCaps offs ncols E →
       ∃ n s' a, KSteps src offs maxrow n s s' ∧ a ≤ rows.length ∧
+        StrictCaps offs ncols (stageRows E (rows.take a)) ∧
         ((a = rows.length ∧
           CellStart src offs maxrow ncols s' ((A0 ++ render rows) ++ X.takeWhile isWs) 0 false (k + a)
             (if rows = [] then np else (A0 ++ render rows).length) (stageRows E rows) ∧
@@ -25,7 +26,7 @@ theorem rows_run_g {src : Bytes} {offs : List Nat} {maxrow ncols : Nat} (hnc : 0
   induction rows with
   | nil =>
     intro A0 X s k np E _ _ hcs hstr
-    exact ⟨0, s, 0, .refl _, Nat.le_refl _, Or.inl ⟨rfl, by simpa [render, stageRows] using hcs, by simpa [stageRows] using hstr⟩⟩
+    exact ⟨0, s, 0, .refl _, Nat.le_refl _, by simpa [stageRows] using hstr, Or.inl ⟨rfl, by simpa [render, stageRows] using hcs, by simpa [stageRows] using hstr⟩⟩
   | cons r rs ih =>
     intro A0 X s k np E htab hsrc hcs hstr
     obtain ⟨hrlen, hrwf⟩ := htab r (by simp)
@@ -40,10 +41,10 @@ theorem rows_run_g {src : Bytes} {offs : List Nat} {maxrow ncols : Nat} (hnc : 0
             hcap (fun _ => hk)
         simp only [Bool.false_eq_true, if_false] at hcs1
         have hsrc1 : src = (A0 ++ renderCells r) ++ (render rs ++ X) := by rw [hsrc]; simp
-        obtain ⟨n2, s2, a, hsteps2, hale, hout⟩ :=
+        obtain ⟨n2, s2, a, hsteps2, hale, hcaps, hout⟩ :=
           ih (A0 ++ renderCells r) X s1 (k + 1) (A0 ++ renderCells r).length (stageRow false E 0 r)
             (fun x hx => htab x (by simp [hx])) hsrc1 hcs1 (strictCaps_stageRow r E 0 hstr hcap)
-        refine ⟨n1 + n2, s2, a + 1, StepsN.trans hsteps1 hsteps2, by simp; omega, ?_⟩
+        refine ⟨n1 + n2, s2, a + 1, StepsN.trans hsteps1 hsteps2, by simp; omega, by simpa [stageRows] using hcaps, ?_⟩
         have hA : ∀ l : List (List Cell), A0 ++ renderCells r ++ render l = A0 ++ render (r :: l) := by
           intro l; simp [render]
         rcases hout with ⟨ha, hcs2, hstr2⟩ | ⟨hapos, hka, hend⟩ | ⟨halt, j, hend, hb⟩
@@ -79,7 +80,8 @@ theorem rows_run_g {src : Bytes} {offs : List Nat} {maxrow ncols : Nat} (hnc : 0
         obtain ⟨n1, s1, hsteps1, hend⟩ :=
           row_cells_last (offs := offs) (maxrow := maxrow) r A0 (render rs ++ X) s 0 k np E hrne hrwf (by omega) hsrc hcs
             hcap hkeq
-        refine ⟨n1, s1, 1, hsteps1, by simp, Or.inr (Or.inl ⟨by omega, hkeq, ?_⟩)⟩
+        refine ⟨n1, s1, 1, hsteps1, by simp,
+          by simpa [stageRows] using strictCaps_stageRow r E 0 hstr hcap, Or.inr (Or.inl ⟨by omega, hkeq, ?_⟩)⟩
         simpa [render, stageRows] using hend
     · -- this record does not fit the value budgets
       have htk : (renderCells r).take (renderCells r).length = renderCells r := List.take_length
@@ -93,7 +95,7 @@ theorem rows_run_g {src : Bytes} {offs : List Nat} {maxrow ncols : Nat} (hnc : 0
           (by omega) (Nat.le_refl _) (fun h => absurd h (Nat.lt_irrefl _)) (Or.inr hcap) hsrc0 hcs0 (Ext.refl _) hstr
       rcases hend with ⟨h, _⟩ | ⟨j, hend, hb⟩
       · exact absurd h (Nat.lt_irrefl _)
-      · refine ⟨n1, s1, 0, hsteps1, Nat.zero_le _, Or.inr (Or.inr ⟨by simp, j, ?_, ?_⟩)⟩
+      · refine ⟨n1, s1, 0, hsteps1, Nat.zero_le _, by simpa [stageRows] using hstr, Or.inr (Or.inr ⟨by simp, j, ?_, ?_⟩)⟩
         · simpa [stageRows] using hend
         · simpa [stageRows] using hb
 
